@@ -15,9 +15,10 @@ import (
 type Gen struct {
 	R *Rng
 	// per-run operand pools (swarm: few values, so that tasks collide on them)
-	decs  []string
-	lits  []string
-	heavy bool // rare runs with extreme arguments
+	decs      []string
+	lits      []string
+	heavy     bool // rare runs with extreme arguments
+	wildSpecs bool // also produce malformed format directives (P20: totality)
 }
 
 func hx(b []byte) string { return hex.EncodeToString(b) }
@@ -426,7 +427,40 @@ func (g *Gen) Literal(scan bool) string {
 
 // ---------- format specs ----------
 
+// garbageSpec returns a directive the way a careless or hostile caller might
+// write it: the property promises totality for any format spec.
+func (g *Gen) garbageSpec() string {
+	switch g.R.N(10) {
+	case 0:
+		return ""
+	case 1:
+		return strings.Repeat(string("+-# 0"[g.R.N(5)]), g.R.Range(1, 40)) + "f"
+	case 2:
+		return g.digits(g.R.Range(5, 30)) + "." + g.digits(g.R.Range(5, 30)) + string("eEfFgGv"[g.R.N(7)])
+	case 3:
+		return "." + string("eEfFgGv"[g.R.N(7)])
+	case 4:
+		return g.digits(g.R.Range(1, 7)) // no verb
+	case 5:
+		return "..5f"
+	case 6:
+		return "5.-3f"
+	case 7:
+		return string("dsxqtTpbcoUX%!"[g.R.N(14)])
+	case 8:
+		b := make([]byte, g.R.Range(1, 12))
+		for i := range b {
+			b[i] = byte(g.R.N(256))
+		}
+		return string(b)
+	}
+	return "100000.100000" + string("eEfFgG"[g.R.N(6)])
+}
+
 func (g *Gen) Spec(verbs string, maxWP int) string {
+	if g.wildSpecs && g.R.P(1, 10) {
+		return g.garbageSpec()
+	}
 	var flags []byte
 	for _, c := range []byte("+-# 0") {
 		if g.R.P(1, 4) {
